@@ -1,13 +1,14 @@
 package main
 
 import (
+	"math"
 	"unicode/utf8"
 
 	"pvharness/pvcase"
 )
 
-// recursionFanout returns the largest number of recursive call sites in one
-// rule body (0 = no recursion, 1 = linear recursion, >=2 = tree recursion).
+// recursionFanout estimates the branching factor of the recursion per consumed
+// rune (0 = no recursion, 1 = linear recursion, >=2 = tree recursion).
 // A PEG parser without memoisation can need time exponential in the input
 // length exactly when the recursion is nonlinear, so the generator keeps the
 // inputs of such grammars short. References to rules the runtime memoises as
@@ -65,7 +66,10 @@ func recursionFanout(c *pvcase.Case) int {
 					add(node{rule: e.Name}, loop)
 				}
 			case pvcase.KThr:
+				// the runtime tries every handler on the recovery stack,
+				// which grows with the recursion depth
 				for _, h := range handlers[e.Label] {
+					add(node{rec: h}, true)
 					add(node{rec: h}, loop)
 				}
 			case pvcase.KRec:
@@ -98,19 +102,39 @@ func recursionFanout(c *pvcase.Case) int {
 		}
 		reach[n] = seen
 	}
-	max := 0
+	// For every strongly connected component multiply the numbers of
+	// recursive call sites of its members: one trip round the cycle consumes
+	// at least one rune and fans out by that product.
+	best := 0
+	done := map[node]bool{}
 	for _, n := range nodes {
-		k := 0
-		for _, y := range sites[n] {
-			if y == n || reach[y][n] {
-				k++
+		if done[n] || !reach[n][n] {
+			continue
+		}
+		prod := 1
+		for _, m := range nodes {
+			if m != n && !(reach[n][m] && reach[m][n]) {
+				continue
+			}
+			done[m] = true
+			k := 0
+			for _, y := range sites[m] {
+				if y == n || (reach[y][n] && reach[n][y]) {
+					k++
+				}
+			}
+			if k > 1 {
+				prod *= k
+			}
+			if prod > 1<<20 {
+				prod = 1 << 20
 			}
 		}
-		if k > max {
-			max = k
+		if prod > best {
+			best = prod
 		}
 	}
-	return max
+	return best
 }
 
 // clampInput shortens the input of grammars with nonlinear recursion.
@@ -118,16 +142,14 @@ func clampInput(c *pvcase.Case, in []byte, hasUnbudgetedTwin bool) []byte {
 	if c.Opts.MaxExpr > 0 && !c.Opts.Memoize && !hasUnbudgetedTwin {
 		return in // the budget bounds the work
 	}
-	limit := 0
-	switch k := recursionFanout(c); {
-	case k <= 1:
+	k := recursionFanout(c)
+	if k <= 1 {
 		return in
-	case k == 2:
-		limit = 9
-	case k == 3:
-		limit = 6
-	default:
-		limit = 4
+	}
+	// keep k^runes below ~3000
+	limit := int(math.Log(3000) / math.Log(float64(k)))
+	if limit < 1 {
+		limit = 1
 	}
 	n, i := 0, 0
 	for i < len(in) && n < limit {
